@@ -20,6 +20,8 @@ struct Lc {
     /// memos already read by an effect expression or a `Show` condition (each at most once)
     used: Vec<bool>,
     in_row: bool,
+    /// the region of the mounted view itself (not a branch, not a row)
+    root: bool,
 }
 
 impl G {
@@ -150,6 +152,12 @@ impl G {
     //    recomputation), and a write to a component-local signal is followed by `idle`.
     // Bodies of component-local memos are free to read program nodes (that is the point: a row-local memo
     // over an outer signal).
+    //  * `<For>` captures the owner it is constructed under (`let parent = Owner::current()`), which keeps
+    //    that owner — and every value created under it — alive until the list's own task has ended, however
+    //    the region it belongs to went away.  The model disposes component-local state when the region's
+    //    holder goes (`dropState`), which is the real order only if no `<For>` sits directly in a region
+    //    that can be dropped: generated views with component-local state have their lists in the region of
+    //    the mounted view only, and such a view is never disposed in the middle of a history.
 
     /// an expression over component-local state, the row key and literals; `None` if nothing is readable
     fn lexpr(&mut self, lc: &mut Lc) -> Option<Expr> {
@@ -248,7 +256,11 @@ impl G {
 
     /// a new region (branch of an `Either` / `Show`, row of a `<For>`, the mounted view): its own bodies only
     fn xregion(&mut self, depth: usize, in_row: bool) -> ViewD {
-        let mut lc = Lc { in_row, ..Default::default() };
+        self.xregion_at(depth, in_row, false)
+    }
+
+    fn xregion_at(&mut self, depth: usize, in_row: bool, root: bool) -> ViewD {
+        let mut lc = Lc { in_row, root, ..Default::default() };
         // most regions start with a body of their own
         if self.r.chance(3, 4) {
             return self.xscope(depth, &mut lc);
@@ -295,7 +307,8 @@ impl G {
                 _ => ViewD::DynText(self.xexpr(lc)),
             };
         }
-        match self.r.below(14) {
+        let top = if lc.root { 14 } else { 11 };
+        match self.r.below(top) {
             0 => ViewD::Text(self.word()),
             1 | 2 => ViewD::DynText(self.xexpr(lc)),
             3 => ViewD::Elem(*self.r.pick(TAGS), self.xattrs(lc), Box::new(self.xview(depth - 1, lc))),
@@ -315,16 +328,16 @@ impl G {
     /// a mounted view with component-local state: mostly a list with rows of their own
     fn xtop(&mut self, depth: usize) -> ViewD {
         match self.r.below(4) {
-            0 => self.xregion(depth, false),
+            0 => self.xregion_at(depth, false, true),
             _ => {
-                let mut lc = Lc::default();
+                let mut lc = Lc { root: true, ..Default::default() };
                 let sel = self.dyn_expr();
                 let lists = self.xlists();
                 let list = ViewD::Elem("ul", vec![], Box::new(ViewD::ForR(sel, lists, Box::new(self.xregion(depth.saturating_sub(1), true)))));
                 match self.r.below(3) {
                     0 => list,
                     1 => ViewD::Seq(Box::new(self.xview(depth.saturating_sub(1), &mut lc)), Box::new(list)),
-                    _ => ViewD::Either(self.dyn_expr(), Box::new(list), Box::new(self.xregion(depth.saturating_sub(1), false))),
+                    _ => ViewD::Seq(Box::new(list), Box::new(self.xregion_at(depth.saturating_sub(1), false, true))),
                 }
             }
         }
@@ -364,6 +377,16 @@ fn has_susp(v: &ViewD) -> bool {
     }
 }
 
+/// a `<For>` sits in the region of the mounted view itself
+fn root_has_for(v: &ViewD) -> bool {
+    match v {
+        ViewD::For(..) | ViewD::ForR(..) => true,
+        ViewD::Elem(_, _, k) | ViewD::Scope(_, _, k) => root_has_for(k),
+        ViewD::Seq(a, b) => root_has_for(a) || root_has_for(b),
+        _ => false,
+    }
+}
+
 fn sig_ids(defs: &[Def]) -> Vec<usize> {
     (0..defs.len()).filter(|i| matches!(defs[*i], Def::Sig(_))).collect()
 }
@@ -397,7 +420,8 @@ fn random_case(g: &mut G, name: &str, out: &mut String) {
     let depth = g.r.range(1, 3);
     g.next_sid = 0;
     g.sig_sids.clear();
-    let view = if g.r.chance(1, 4) { g.xtop(depth) } else { g.top_view(depth) };
+    let xcase = g.r.chance(1, 4);
+    let view = if xcase { g.xtop(depth) } else { g.top_view(depth) };
     emit_prog(out, name, &g.defs, &view);
     let sigs = sig_ids(&g.defs);
     let lsigs = g.sig_sids.clone();
@@ -412,13 +436,15 @@ fn random_case(g: &mut G, name: &str, out: &mut String) {
         _ => {}
     }
     let writes = g.r.range(3, 15);
-    let dispose_at = if g.r.chance(1, 6) { Some(g.r.below(writes)) } else { None };
+    let dispose_at =
+        if g.r.chance(1, 6) && !(xcase && root_has_for(&view)) { Some(g.r.below(writes)) } else { None };
     for w in 0..writes {
         if dispose_at == Some(w) {
             writeln!(out, "dispose").unwrap();
         }
         if !lsigs.is_empty() && g.r.chance(1, 3) {
-            // a write through a kept handle; the executor then runs to idle (see `lexpr`)
+            // a write through a kept handle, between two runs of the executor to idle (see `lexpr`)
+            writeln!(out, "idle").unwrap();
             writeln!(out, "setl {} {}", *g.r.pick(&lsigs), g.r.below(5) as i64 - 1).unwrap();
             writeln!(out, "idle").unwrap();
             continue;
